@@ -497,7 +497,7 @@ func (ex *executor) coerce(v Value, a *Addr, src types.Type) Value {
 
 func (ex *executor) nilCheck(st *state, a *Addr, pos token.Pos, what string) {
 	r := ex.root()
-	if r.contract == nil || !r.contract.CheckNil || !ex.safety {
+	if r.contract == nil || !r.contract.CheckNil || ex.inSpec {
 		if a.Kind == "obj" && a.Base != nil {
 			// dereference implies non-nil on the continuing path
 			ex.assume(st, Not(Eq(a.Base, IntC(0))))
